@@ -283,6 +283,10 @@ pub fn run_c18(ctx: &Ctx, sink: &mut Sink) {
             if rng.chance(1, 3) {
                 toks.push(format!("maxdepth:{}", rng.below(3)));
             }
+            // a depth range that excludes the starting points themselves: one that cannot be examined is still an error
+            if rng.chance(1, 4) {
+                toks.push(format!("mindepth:{}", rng.range(1, 3)));
+            }
             if rng.chance(1, 4) {
                 toks.push("depth".into());
             }
